@@ -21,6 +21,7 @@ package main
 import (
 	"fmt"
 	"go/types"
+	"golang.org/x/tools/go/ssa/ssautil"
 	"math/big"
 	"strings"
 
@@ -343,7 +344,22 @@ func checkTree(ctx *Ctx, r *Report, ts treeSpec) {
 	r.check("Q1", ts.label+"|recursion-only-when-not-empty-and-above-leaf", pfn.Pos(), condOK && len(recs) > 0, "every recursive call is guarded by !isEmpty(c) && c.n != 1;"+detail)
 
 	// ---- Q3 emptiness test
-	if efn := ctx.ssaFunc("render", ts.isEmpty); efn == nil {
+	efn := ctx.ssaFunc("render", ts.isEmpty)
+	if efn == nil {
+		// the same test as a method of the cell type taking the cache (receiver and parameter swapped)
+		cache := fmt.Sprintf("dcache%d", ts.dim)
+		for f := range ssautil.AllFunctions(ctx.Prog) {
+			if !inModule(f) || f.Pkg == nil || !strings.HasSuffix(f.Pkg.Pkg.Path(), "/render") || f.Name() != "isEmpty" || len(f.Blocks) == 0 {
+				continue
+			}
+			for _, p := range f.Params {
+				if strings.HasSuffix(p.Type().String(), "render."+cache) {
+					efn = f
+				}
+			}
+		}
+	}
+	if efn == nil {
 		r.undecided("Q3", ts.label, 0, ts.isEmpty+" not found")
 	} else {
 		checkIsEmpty(ctx, r, efn, ts.dim, ts.label)
